@@ -80,6 +80,7 @@ type c35model struct {
 	lastPath string
 	reads    map[*h2handler]bool // handlers with a blocked body read
 	gate     *c35gate            // gate family: frame-granular write gate in front of the server's Framer
+	hpanic   bool // a handler goroutine was made to panic in this execution
 	unjudged bool // outcomes are not attributed any more (stall family, or after a violation)
 	panicked bool
 }
@@ -547,6 +548,19 @@ const c35fit = c35maxWin - 65535
 
 var c35malformed = []string{"ok", "nometh", "duppath", "pseudoafter", "unkpseudo", "status", "emptypath", "upper", "conn", "tegzip", "tetrailers", "trailer"}
 
+// c35panicRead: a scripted body Read of this size panics inside the handler goroutine (runHandler
+// recovers it and queues a handlerPanicRST write for the stream).
+const c35panicRead = 7777
+
+type c35body struct{ io.ReadCloser }
+
+func (b *c35body) Read(p []byte) (int, error) {
+	if len(p) == c35panicRead {
+		panic("c35: scripted handler panic")
+	}
+	return b.ReadCloser.Read(p)
+}
+
 // c35gate sits between the server's Framer and its buffered conn writer ("gate" family). While it
 // is shut, the write of the next server frame parks inside the frame-write goroutine: the frame
 // has been started (startFrameWrite) but its result has not reached the serve loop (wroteFrame),
@@ -591,7 +605,7 @@ func c35alphabet(fam string, e *h2env, m *c35model) []c35ev {
 	case "body":
 		add(c35H(1, "ok", false), c35H(1, "ok", true), c35H(1, "trailer", true), c35H(1, "trailer", false), c35H(1, "trailerpseudo", true),
 			c35D(1, false), c35D(1, true), c35R(1), c35D(3, false), c35D(0, false), c35D(2, false), c35H(3, "ok", true))
-		hops = []string{"RET", "READ", "WF"}
+		hops = []string{"RET", "READ", "WF", "PANIC"}
 	case "malformed":
 		for _, v := range c35malformed {
 			add(c35H(next, v, true))
@@ -625,15 +639,15 @@ func c35alphabet(fam string, e *h2env, m *c35model) []c35ev {
 	case "stall":
 		add(c35H(1, "ok", true), c35H(1, "ok", false), c35H(3, "ok", true), c35D(1, true), c35R(1), c35M("PING", 0),
 			c35ev{name: c35b(m.stalled, "UNSTALL", "STALL"), kind: "STALL"})
-		hops = []string{"RET", "READ", "WF"}
+		hops = []string{"RET", "READ", "WF", "PANIC"}
 	case "clen", "clen0", "clen1", "clen2":
 		// the request (POST without END_STREAM; content-length absent / 0 / 1 / 2) is the prelude
 		add(c35D0(1, false), c35D0(1, true), c35D(1, false), c35D(1, true), c35H(1, "trailer", true), c35R(1), c35H(3, "cl1", true))
 		hops = []string{"RET", "READ"}
 	case "gate":
-		add(c35H(1, "ok", true), c35H(1, "ok", false), c35H(3, "ok", true), c35R(1), c35W(1, 1, "1"),
+		add(c35H(1, "ok", true), c35H(1, "ok", false), c35H(3, "ok", true), c35R(1), c35W(1, 1, "1"), c35D(1, true),
 			c35ev{name: c35b(m.gate != nil && m.gate.shut, "UNGATE", "GATE"), kind: "GATE"})
-		hops = []string{"RET", "HWF"}
+		hops = []string{"RET", "HWF", "PANIC"}
 	default:
 		panic("c35: family " + fam)
 	}
@@ -1053,7 +1067,11 @@ func c35checkPanic(r *vk.Run, id string, why string, hist []string, e *h2env, m 
 	}
 	if !m.panicked {
 		m.panicked = true
-		r.Violation("serve-panic:"+why+":"+c35panicClass(p), id, fmt.Sprintf("serve loop panicked (%s) after events %v; server frames so far: %s", p, hist, h2trace(e.frames)))
+		sig := "serve-panic:" + why + ":" + c35panicClass(p)
+		if m.hpanic {
+			sig += ":after-handler-panic"
+		}
+		r.Violation(sig, id, fmt.Sprintf("serve loop panicked (%s) after events %v; server frames so far: %s", p, hist, h2trace(e.frames)))
 	}
 	m.unjudged = true
 	return true
@@ -1079,7 +1097,7 @@ func c35step(r *vk.Run, id string, hist []string, e *h2env, m *c35model, ev c35e
 		c35book(e, m, frames)
 		c35checkPanic(r, id, c35b(m.gate.shut, "gate", "ungate"), hist, e, m)
 		return
-	case "RET", "READ", "WF", "HWF":
+	case "RET", "READ", "WF", "HWF", "PANIC":
 		if ev.h.busy {
 			if res, blocked := ev.h.poll(); !blocked && m.reads[ev.h] {
 				delete(m.reads, ev.h)
@@ -1092,6 +1110,11 @@ func c35step(r *vk.Run, id string, hist []string, e *h2env, m *c35model, ev c35e
 			return
 		}
 		switch ev.kind {
+		case "PANIC":
+			// the handler goroutine panics and is gone (the command is never answered); bfe's
+			// runHandler recovers and asks the serve loop to reset the stream
+			m.hpanic = true
+			ev.h.do(h2cmd{op: "read", n: c35panicRead})
 		case "RET":
 			ev.h.do(h2cmd{op: "return"})
 		case "READ":
@@ -1223,6 +1246,9 @@ func c35exec(t *testing.T, r *vk.Run, fam string, depth int, replayLen int, ch *
 	}
 	h2run(t, conf, false, func(e *h2env) {
 		e.fr.AllowIllegalWrites = true
+		e.mu.Lock()
+		e.autoHandler = func(h *h2handler) { h.req.Body = &c35body{h.req.Body} }
+		e.mu.Unlock()
 		e.recv()
 		m := c35newModel(limit)
 		if fam == "gate" {
